@@ -268,7 +268,10 @@ func (s String) CallAll(_ context.Context, arg Value, b SetBuilder) error {
 		if i, is := n.Int(); is {
 			i -= s.offset
 			if 0 <= i && i < len(s.s) {
-				b.Add(NewNumber(float64(s.s[i])))
+				// A negative rune marks a hole: there is no value at this index.
+				if c := s.s[i]; c >= 0 {
+					b.Add(NewNumber(float64(c)))
+				}
 			}
 		}
 	}
